@@ -1,6 +1,6 @@
 (* C10 — property theorems (statements only).  Owner: builder-parse. *)
 From Coq Require Import List NArith Bool Arith.
-From DV Require Import C10.Model C10.Proofs C10.Backtrack C10.NormalForm C10.Layout C10.NoLoss C10.Shape C10.Complete.
+From DV Require Import C10.Model C10.Proofs C10.Backtrack C10.NormalForm C10.Layout C10.NoLoss C10.Shape C10.Complete C10.Trim C10.Reading.
 Import ListNotations.
 
 (* longest match: for every key set and every input, outside the `item` and `for .. in` tweaks, the name token is the
@@ -177,33 +177,137 @@ Theorem C10_collect_shape : forall inp pos parts cps endpos,
 Proof. exact collect_shape. Qed.
 Print Assumptions C10_collect_shape.
 
-(* longest match, stated on the input text: let a name qs (words and additional symbols) be written at pos with any spacing gs
-   (canon: white-space gaps, a non-empty gap between two words, a final word not followed by a name character) and be followed by R.
-   Then qs is the prefix of the collected parts of that length, and if its normal form is a scope key the token is the longest bound
+(* for EVERY input (the three code points of C10_char_classes included) the collected parts with the white space between them are a
+   `reading` of the input from pos on: every gap is white space and does not begin with a name character, every part is a word or one
+   additional symbol, a word behind a non-empty gap does not begin with white space, two words are separated by a non-empty gap, a word
+   is not followed by a name character; where the collector stops there is white space that does not begin with a name character and
+   then a character that cannot belong to a name.  (The three code points are name characters directly after a name character or a
+   symbol and white space after white space: that is how the five-state machine reads them.) *)
+Theorem C10_collect_reading : forall inp pos parts cps endpos,
+  pos < length inp -> is_name_start (ch inp pos) = true -> collect inp pos = (parts, cps, endpos) ->
+  exists gaps tail, layout inp pos parts gaps cps /\
+    skipn pos inp = weave gaps parts ++ tail ++ skipn endpos inp /\
+    reading (tail ++ skipn endpos inp) false gaps parts /\ stop_ok' (tail ++ skipn endpos inp).
+Proof. exact collect_reading. Qed.
+Print Assumptions C10_collect_reading.
+
+(* longest match, stated on the input text, all inputs: let a name qs (words and additional symbols) be written at pos with any white
+   space gs in its gaps under the reading rule (`reading`: a gap does not begin with a name character and a word behind a gap does not
+   begin with white space -- both can only happen with U+1680, U+180E, U+FEFF) and be followed by R.  Then qs is the prefix of the
+   collected parts of that length, and if its normal form (Name::new, parts trimmed) is a scope key the token is the longest bound
    prefix, has at least as many parts, and the lexer resumes at or after the end of the written name.  So no bound name written at pos
-   is longer than the token, whatever way it is cut.  Hypothesis: the input contains none of the three code points of C10_char_classes *)
+   is longer than the token, whatever way it is cut.  No hypothesis on the characters of the input (before: none of the three code points) *)
 Theorem C10_longest_written : forall keys inp pos parts cps endpos,
-  pos < length inp -> is_name_start (ch inp pos) = true -> unambiguous inp -> collect inp pos = (parts, cps, endpos) ->
+  pos < length inp -> is_name_start (ch inp pos) = true -> collect inp pos = (parts, cps, endpos) ->
   (match parts with p :: _ => str_eqb p str_item | [] => false end) = false ->
-  forall gs qs R, qs <> [] -> skipn pos inp = weave gs qs ++ R -> canon R false gs qs ->
+  forall gs qs R, qs <> [] -> skipn pos inp = weave gs qs ++ R -> reading R false gs qs ->
     firstn (length qs) parts = qs /\
     (mem (flatten_parts qs) keys = true ->
      exists k, length qs <= k <= length parts /\ bound keys parts k /\
        (forall j, k < j <= length parts -> ~ bound keys parts j) /\
        lex_name keys false inp pos = LName (name_new (firstn k parts)) (S (nth (k - 1) cps 0)) /\
        pos + length (weave gs qs) <= S (nth (k - 1) cps 0)).
-Proof. exact longest_written. Qed.
+Proof. exact longest_written_any. Qed.
 Print Assumptions C10_longest_written.
+
+(* a written name without any of the three code points (canon: no name character in a gap, no white space character in a word) is
+   a reading: the statement of the previous rounds is a special case *)
+Theorem C10_canon_reading : forall R qs gs b, canon R b gs qs -> reading R b gs qs.
+Proof. exact canon_reading. Qed.
+Print Assumptions C10_canon_reading.
 
 (* `ab cd-ef` is written as `ab  cd - ef` at index 0 of the input of C10_no_loss_nonvacuous and followed by ` + 1`: the hypotheses of
    C10_longest_written hold for it *)
 Example C10_longest_written_nonvacuous :
   skipn 0 inp_three_words = weave gaps_three_words (firstn 4 parts_three_words) ++ rest_three_words /\
-  canon rest_three_words false gaps_three_words (firstn 4 parts_three_words) /\
-  unambiguous inp_three_words /\ is_name_start (ch inp_three_words 0) = true /\
+  reading rest_three_words false gaps_three_words (firstn 4 parts_three_words) /\
+  is_name_start (ch inp_three_words 0) = true /\
   mem (flatten_parts (firstn 4 parts_three_words)) [key_ab; key_ab_cd_ef] = true.
-Proof. exact three_words_written. Qed.
+Proof. exact three_words_reading. Qed.
 Print Assumptions C10_longest_written_nonvacuous.
+
+(* the rule is met by texts with the three code points: `a<U+1680>  b` is the words `a<U+1680>`, `b` -- Name::new trims U+1680, the name is
+   `a b` and resolves; `a+<U+FEFF>b` is `a`, `+`, `<U+FEFF>b` and resolves to the name bound under these parts *)
+Example C10_reading_nonvacuous :
+  reading [] false [[]; [32; 32]%N] [[97; 5760]%N; k_b] /\
+  name_new [[97; 5760]%N; k_b] = k_a_b /\
+  lex_all [k_a; k_b; k_a_b] [97; 5760; 32; 32; 98]%N = Some [KName k_a_b] /\
+  reading [] false [[]; []; []] [k_a; [43%N]; [65279; 98]%N] /\
+  lex_all [k_a; k_b; [97; 43; 65279; 98]%N] [97; 43; 65279; 98]%N = Some [KName [97; 43; 65279; 98]%N].
+Proof. exact reading_witness. Qed.
+Print Assumptions C10_reading_nonvacuous.
+
+(* outside the rule "longest" fails when the code point is taken for white space.  A gap that begins with U+1680: `a<U+1680>b` is the
+   bound name `a b` with the white-space character U+1680 between its words, the token is the unbound word `a<U+1680>b`;
+   `a+<U+1680> b` is the bound name `a+b` with white space behind the symbol, the collector returns a, +, <U+1680>, b, the look-up text
+   is `a+ b` (the trimmed part still separates) and the lexer reads a, +, b -- while `a+ <U+1680>b` is the name `a+b`.
+   (Both run against the real parser in props/c10.py: null instead of the value of `a b`; a + b instead of the value of `a+b`.) *)
+Theorem C10_longest_written_gap_rule_refuted :
+  [97; 5760; 98]%N = weave [[]; [5760%N]] [k_a; k_b] /\ Forall all_ws [[]; [5760%N]] /\
+  mem (flatten_parts [k_a; k_b]) [k_a; k_b; k_a_b] = true /\
+  lex_name [k_a; k_b; k_a_b] false [97; 5760; 98]%N 0 = LName [97; 5760; 98]%N 3 /\
+  lex_all [k_a; k_b; k_a_b] [97; 5760; 98]%N = Some [KName [97; 5760; 98]%N] /\
+  [97; 43; 5760; 32; 98]%N = weave [[]; []; [5760; 32]%N] [k_a; [43%N]; k_b] /\ Forall all_ws [[]; []; [5760; 32]%N] /\
+  mem (flatten_parts [k_a; [43%N]; k_b]) [k_a; k_b; k_a_plus_b] = true /\
+  collect [97; 43; 5760; 32; 98]%N 0 = ([k_a; [43%N]; [5760%N]; k_b], [0; 1; 2; 4], 5) /\
+  flatten_parts [k_a; [43%N]; [5760%N]; k_b] = [97; 43; 32; 98]%N /\
+  lex_all [k_a; k_b; k_a_plus_b] [97; 43; 5760; 32; 98]%N = Some [KName k_a; KSym 43; KName k_b] /\
+  lex_all [k_a; k_b; k_a_plus_b] [97; 43; 32; 5760; 98]%N = Some [KName k_a_plus_b].
+Proof. exact gap_rule_witness. Qed.
+Print Assumptions C10_longest_written_gap_rule_refuted.
+
+(* a word that begins with U+180E behind a blank: the name with the words `a`, `<U+180E>b` is bound (scope key `a <U+180E>b`) and written
+   with one blank between its words; the lexer reads the words a, b: such a name cannot be written in a text *)
+Theorem C10_longest_written_word_rule_refuted :
+  name_new [k_a; [6158; 98]%N] = k_a_mvs_b /\
+  [97; 32; 6158; 98]%N = weave [[]; [32%N]] [k_a; [6158; 98]%N] /\ word [6158; 98]%N /\
+  mem (flatten_parts [k_a; [6158; 98]%N]) [k_a; k_a_mvs_b] = true /\
+  collect [97; 32; 6158; 98]%N 0 = ([k_a; k_b], [0; 3], 4) /\
+  lex_all [k_a; k_a_mvs_b] [97; 32; 6158; 98]%N = Some [KName k_a; KName k_b].
+Proof. exact word_rule_witness. Qed.
+Print Assumptions C10_longest_written_word_rule_refuted.
+
+(* ------------------------------------------------------------------ Name::new trims its parts (str::trim, Unicode White_Space) *)
+
+(* trimming is idempotent, so Name::new of trimmed parts is Name::new; without White_Space characters in the parts it is the joining loop *)
+Theorem C10_name_new_trim : forall ps,
+  name_new (map trim ps) = name_new ps /\ (Forall (Forall (fun c => is_white_space c = false)) ps -> name_new ps = name_join ps).
+Proof. exact name_new_trim_facts. Qed.
+Print Assumptions C10_name_new_trim.
+
+(* White_Space is part of the white space of the lexer; the lexer has three more (U+180E, U+200B, U+FEFF); of the name characters only
+   U+1680 has the property; an additional symbol has not *)
+Theorem C10_white_space_classes : forall c,
+  (is_white_space c = true -> is_ws c = true) /\
+  (is_ws c = true -> is_white_space c = false -> c = 6158%N \/ c = 8203%N \/ c = 65279%N) /\
+  (is_name_part c = true -> is_white_space c = true -> c = 5760%N) /\
+  (is_add_sym c = true -> is_white_space c = false).
+Proof. exact white_space_classes. Qed.
+Print Assumptions C10_white_space_classes.
+
+(* what the trim does to the parts the collector returns, every input: it removes a run of U+1680 at each end of a part and nothing
+   else; on an input without U+1680 it is the identity and the name of every prefix is the joining loop over the parts as collected *)
+Theorem C10_trim_collected : forall inp pos parts cps endpos,
+  pos < length inp -> is_name_start (ch inp pos) = true -> collect inp pos = (parts, cps, endpos) ->
+  Forall (fun p => exists l r, p = l ++ trim p ++ r /\ Forall (fun c => c = 5760%N) l /\ Forall (fun c => c = 5760%N) r) parts /\
+  (Forall (fun c => c <> 5760%N) inp -> map trim parts = parts /\ forall k, name_new (firstn k parts) = name_join (firstn k parts)).
+Proof. exact trim_collected. Qed.
+Print Assumptions C10_trim_collected.
+
+(* the unit test of feel/src/names.rs on the model ("   x   ", " y      \t", "  \n  z  \t  " is `x y z`; "x", "    +    ", "y" is `x+y`;
+   three empty parts are the empty name; From<&str> trims the text), and the trim on the overlapping code points: <U+1680> alone is
+   trimmed to an empty part that still separates (`a+ b`), `a<U+1680>` is `a`, U+180E and U+FEFF stay *)
+Example C10_name_new_nonvacuous :
+  (name_new [[32; 32; 32; 120; 32; 32; 32]; [32; 121; 32; 32; 32; 32; 32; 32; 9]; [32; 32; 10; 32; 32; 122; 32; 32; 9; 32; 32]]%N = [120; 32; 121; 32; 122]%N /\
+   name_new [[120]; [32; 32; 32; 32; 43; 32; 32; 32; 32]; [121]]%N = [120; 43; 121]%N /\
+   name_new [[]; []; []] = [] /\
+   name_of_text [32; 97; 32; 98; 9]%N = [97; 32; 98]%N) /\
+  (name_new [[97]; [43]; [5760]; [98]]%N = [97; 43; 32; 98]%N /\
+   name_new [[97]; [43]; [98]]%N = [97; 43; 98]%N /\
+   name_new [[97; 5760]]%N = [97]%N /\ name_new [[5760; 97; 5760; 98; 5760]]%N = [97; 5760; 98]%N /\
+   name_new [[97; 6158]]%N = [97; 6158]%N /\ name_new [[97; 65279]]%N = [97; 65279]%N).
+Proof. exact name_new_witnesses. Qed.
+Print Assumptions C10_name_new_nonvacuous.
 
 (* what the overlap means: directly after a name character such a code point continues the word, after a blank it is white space *)
 Example C10_overlap_reading :
